@@ -212,9 +212,9 @@ class MetaMolecule(nx.Graph):
             if self.root is None:
                 self.root =_find_starting_node(self)
             if self.dfs:
-                self.__search_tree = nx.bfs_tree(self, source=self.root)
-            else:
                 self.__search_tree = nx.dfs_tree(self, source=self.root)
+            else:
+                self.__search_tree = nx.bfs_tree(self, source=self.root)
 
         return self.__search_tree
 
